@@ -185,6 +185,8 @@ void tmcg_mpz_fpowm_precompute
 	 mpz_srcptr m, mpz_srcptr p, const size_t t)
 {
 	mpz_set(fpowm_table[0], m);
+	if (!mpz_cmp_ui(p, 0UL))
+		return; /* no residues modulo zero; the group check of the caller fails */
 	for (size_t i = 1; ((i < t) && (i < TMCG_MAX_FPOWM_T)); i++)
 	{
 		mpz_mul(fpowm_table[i], fpowm_table[i-1], fpowm_table[i-1]);
